@@ -4861,3 +4861,29 @@ func c02R15(c *Ctx, r *Report) {
 	r.Check(!strings.Contains(pr, "console.log(") && strings.Contains(pl, `"\n"`), rule, "runtime.js:ferret_std_io_Print", "Print leaves the line open, Println ends it", fmt.Sprintf("runtime/wasm/runtime.js:%d", line),
 		"Print goes through console.log, which ends the line, and Println is the same function: `io::Print(1); io::Print(2); io::Println(3);` prints 123 natively and three lines on wasm")
 }
+
+// ---- C02.R16: floats are printed alike ------------------------------------------------------------------------------
+
+func init() {
+	lateInits = append(lateInits, func() {
+		props["C02"].Quick = append(props["C02"].Quick, c02R16)
+		props["C02"].Explanation += " (R16) the JavaScript runtime (text lint) does not print a float with JavaScript's own number-to-string conversion: printUnion hands f32/f64 payloads to a formatter, as the native runtime prints them with %.6g / %.15g and a `.0` for integral values."
+	})
+}
+
+func c02R16(c *Ctx, r *Report) {
+	const rule = "C02.R16"
+	r.Describe(rule, "runtime/wasm/runtime.js printUnion: no `String(dv.getFloat32(` / `String(dv.getFloat64(`; the float payloads are passed to another function of the file")
+	data, err := os.ReadFile(filepath.Join(c.RepoDir, "runtime", "wasm", "runtime.js"))
+	if !r.Anchor(rule, err == nil, "runtime/wasm/runtime.js") {
+		return
+	}
+	body, line := jsFuncBody(string(data), "printUnion")
+	if !r.Anchor(rule, body != "", "runtime.js: printUnion") {
+		return
+	}
+	raw := strings.Contains(body, "String(dv.getFloat32(") || strings.Contains(body, "String(dv.getFloat64(")
+	formatted := regexp.MustCompile(`[A-Za-z_][A-Za-z0-9_]*\(dv\.getFloat64\(`).FindString(body)
+	r.Check(!raw && formatted != "" && !strings.HasPrefix(formatted, "String("), rule, "runtime.js:printUnion", "floats go through the runtime's formatter", fmt.Sprintf("runtime/wasm/runtime.js:%d", line),
+		"a float is printed with JavaScript's String(): `let z: f64 = 0.0; io::Println(z);` prints 0.0 natively and 0 on wasm, an f32 0.1 prints 0.1 and 0.10000000149011612")
+}
